@@ -80,13 +80,14 @@ func (m *model) support() int {
 }
 
 type vnode struct {
-	obj      verifierObj
-	hasDeal  bool
-	buffered []any
-	m        model
-	byz      bool
-	approved bool
-	plain    *Deal // plaintext of the deal this node adopted (harness knowledge)
+	obj                verifierObj
+	hasDeal            bool
+	timedOutBeforeDeal bool
+	buffered           []any
+	m                  model
+	byz                bool
+	approved           bool
+	plain              *Deal // plaintext of the deal this node adopted (harness knowledge)
 
 	pendingTimeout bool
 	sawForgedJust  bool
@@ -586,6 +587,9 @@ func (Engine) RunOne(t *core.Tape, prop, tier string, info *core.RunInfo) *core.
 				info.Probe("deal-complaint")
 			}
 			bcastResp(i, r)
+			if nd.timedOutBeforeDeal {
+				nd.m.timedOut = true // the flag was set on the object before the deal came in
+			}
 			if nd.pendingTimeout {
 				nd.pendingTimeout = false
 				if v := handle(i, "timeout", nil); v != nil {
@@ -675,6 +679,16 @@ func (Engine) RunOne(t *core.Tape, prop, tier string, info *core.RunInfo) *core.
 				info.Probe("justification-not-applicable")
 			}
 		case "timeout":
+			if !nd.hasDeal && va.Name() == "pedersen" {
+				// the Pedersen verifier takes a timeout before its deal: it has nothing to certify
+				// (checked by the invariant below: no deal, no certified verdict)
+				nd.obj.SetTimeout()
+				nd.timedOutBeforeDeal = true
+				info.Fault("timeout-before-deal")
+				info.Logf("t=%d timeout v%d (no deal yet)", net.Now, i)
+				info.SigAdd("T%d", i)
+				return nil
+			}
 			if !nd.hasDeal {
 				// Rabin's Verifier dereferences a nil aggregator when timed out (or handed a
 				// response) before its deal; C10 does not speak about that order, so the
@@ -850,6 +864,17 @@ func (Engine) RunOne(t *core.Tape, prop, tier string, info *core.RunInfo) *core.
 		}
 		// invariants after every event
 		for i, nd := range nodes {
+			if !nd.byz && !nd.hasDeal {
+				// a verifier that holds no deal has nothing to report as certified, whatever else
+				// (timeouts, early responses) has reached it
+				var c bool
+				if p := core.Guard(func() { c = nd.obj.Certified() }); p != nil {
+					return viol("C10", "totality", "verifier/panic-in-certified/"+va.Name(), "verifier %d (no deal yet) DealCertified panicked: %v", i, p)
+				}
+				if c {
+					return viol("C10", "certified-only-if", "certified/without-a-deal/"+va.Name(), "verifier %d has not received any deal (timed out before it: %v) and reports the deal certified", i, nd.timedOutBeforeDeal)
+				}
+			}
 			if nd.byz || !nd.hasDeal {
 				continue
 			}
